@@ -29,6 +29,7 @@ theorem kDivMod_eq : kDivMod = 255 := by decide
 theorem kDivAdd_eq : kDivAdd = 255 := by decide
 theorem kFieldPolynomial_eq : kFieldPolynomial = 0x11D := by decide
 theorem kShareIndexStart_eq : kShareIndexStart = 1 := by decide
+theorem kDegreeStart_eq : kDegreeStart = 1 := by decide
 theorem kShareIndexModulus_gt : 255 < kShareIndexModulus := by decide
 theorem kSecretBytes_eq : kSecretBytes = 32 ∧ kInterpolateBytes = 32 := by decide
 
